@@ -306,7 +306,12 @@ class Server:
             type_error = argument_type_error(method, bound.arguments)
             if type_error is not None:
                 return {"error": f"Invalid arguments for command '{command}': {type_error}"}
-            ret = method(self, **data)
+            try:
+                ret = method(self, **data)
+            finally:
+                # A command that returns early (say, on an invalid source list) must not
+                # leave file system state cached for the next request.
+                self.fscache.flush()
             assert isinstance(ret, dict)
             return ret
 
